@@ -6,6 +6,11 @@ uniform mesh modulo the reciprocal lattice, the reduced weights are positive and
 weighted average of random invariant periodic functions  f(k) = sum_{R in point-group orbit} exp(i k.R)
 (real and imaginary part) equals the full-mesh average.  The point group comes from the independent
 brute-force space group (vmon.ref.geom.full_group).
+
+Directed family 'bzfold' (cheap clauses only: in-first-BZ, mesh count/completeness, termination): strongly anisotropic
+face-/body-centred orthorhombic and triclinic 3-D lattices (14-face zones, where folding a point across one zone plane
+pushes it across planes that were already passed) x batches of anisotropic meshes, a few thousand (lattice, mesh)
+pairs per quick run; the number of mesh points that need three or more folding sweeps is counted.
 """
 import itertools, signal
 import numpy as np
@@ -17,14 +22,26 @@ ID = 'C22'
 RULE = ('random crystals (all 11 3-D and 5 2-D lattice systems, 1-3 orbits, 1-2 species, 40% in a random rigid orientation, plus '
         'skewed strained FCC/BCC/hexagonal cells, and 30% symmetric lattices with a generic low-symmetry decoration; 30% re-described in a singly sheared non-reduced cell with noreduce=True; reduction clauses only when the repository still finds the complete group there) x random meshes (each division 1..7 (3-D) / 1..12 (2-D); isotropic even, isotropic '
         'odd, anisotropic mixed) x 6 random lattice-vector shells per mesh; non-trivial = mesh with more than one point; '
-        'distinct = (kind, |G|, mesh)')
+        'distinct = (kind, |G|, mesh). Directed family bzfold (cases with family=bzfold; in-first-BZ / count / completeness / '
+        'termination only): one-atom crystals on face-centred and body-centred orthorhombic lattices with axes a,b,c '
+        '1 : r1 : r2 (r1 log-uniform in 1.15..2.4, r2/r1 in 1.1..3.5: three different axes, ratios up to 8.4; random axis '
+        'permutation, overall scale 0.6..1.6) and triclinic lattices (60% 1 + 0.3 x normal, 20% fully normal, 20% '
+        'diag(0.4..2.5) x (1 + 0.3 x normal); |det| >= 0.05, condition number < 40), 40% in a random rigid orientation, each with a '
+        'batch of meshes, every division 1..8 independently (three quarters of the batch 3..8), > 1 and <= 600 points; distinct = '
+        '(kind, rounded lattice, mesh)')
 ASSUMPTIONS = ['a fullkptmesh call that has not returned after 60 s (normal: < 1 s) is reported as non-terminating',
                'Brillouin-zone membership |k|^2 <= |k-G|^2 + 1e-9 |G|^2 over all reciprocal vectors with indices |m| <= 5 (<= 8 for sheared cells; the '
                'repository builds its zone from |m| <= 3)',
-               'averages compared to 1e-12 x (number of terms in the shell); mesh points compared in reduced coordinates to 1e-9']
+               'averages compared to 1e-12 x (number of terms in the shell); mesh points compared in reduced coordinates to 1e-9',
+               'coverage counters points/pairs_needing_3_sweeps (not oracles): the returned points are wrapped back to the raw mesh '
+               '(reduced coordinates in (-1/2, 1/2]) and the documented folding (sweep over the zone-face vectors in the order of '
+               'the attribute Crystal.BZG, fold where k.G > G.G, repeat until nothing moves) is replayed on them; a point counts '
+               'when the third sweep still folds it. The in-first-BZ oracle itself never uses Crystal.BZG']
 REQUIRED_OBS = {'meshes_checked': 100, 'eval:C22:in-first-BZ': 100, 'eval:C22:full-mesh-complete': 100, 'eval:C22:weights-sum': 100,
                 'eval:C22:invariant-average': 500, 'mesh:even': 10, 'mesh:odd': 10, 'mesh:anisotropic': 20, 'dim2_meshes': 20,
-                'dim3_meshes': 20, 'reduced_smaller': 50, 'folded_points': 100, 'boundary_points': 20, 'nonzero_averages': 100, 'sheared_cells': 8, 'low_symmetry_on_symmetric_lattice': 10}
+                'dim3_meshes': 20, 'reduced_smaller': 50, 'folded_points': 100, 'boundary_points': 20, 'nonzero_averages': 100, 'sheared_cells': 8, 'low_symmetry_on_symmetric_lattice': 10,
+                'directed_pairs': 2000, 'directed_lattices': 100, 'directed:orthoF-aniso': 500, 'directed:orthoI-aniso': 500,
+                'directed:tric-aniso': 500, 'pairs_needing_2_sweeps': 100, 'pairs_needing_3_sweeps': 10, 'points_needing_3_sweeps': 10}
 CASE_TIMEOUT = 600
 EXTRA_KINDS = ('strainF', 'strainI', 'strainH3', 'strainH2')
 LOWSYM_KINDS = ('cubicP', 'cubicF', 'cubicI', 'tetP', 'ortho', 'hex', 'square', 'rect', 'hex2', 'crect')
@@ -54,8 +71,13 @@ class deadline:
 
 def cases(tier, seed):
     n = 48 if tier == 'quick' else 1000
-    return [{'seed': seed, 'idx': i, 'hashseed': i % (5 if tier == 'quick' else 7), 'ncrys': 2 if tier == 'quick' else 3, 'nmesh': 3,
+    main = [{'seed': seed, 'idx': i, 'hashseed': i % (5 if tier == 'quick' else 7), 'ncrys': 2 if tier == 'quick' else 3, 'nmesh': 3,
              'maxpts': 400 if tier == 'quick' else 1500} for i in range(n)]
+    nd = 12 if tier == 'quick' else 150
+    directed = [{'seed': seed, 'idx': 100000 + i, 'hashseed': i % (5 if tier == 'quick' else 7), 'family': 'bzfold', 'nlatt': 12,
+                 'nmesh': 20, 'maxpts': 600} for i in range(nd)]
+    # directed cases first in the quick tier: they are the longer ones
+    return directed + main
 
 
 def make_crystal(rng, crystal):
@@ -102,10 +124,151 @@ def rand_mesh(rng, dim, maxpts):
     return [2] * dim
 
 
+DIRECTED_KINDS = ('orthoF-aniso', 'orthoI-aniso', 'tric-aniso')
+
+
+def aniso_lattice(rng, kind):
+    """Strongly anisotropic centred-orthorhombic / triclinic lattice (columns = lattice vectors)."""
+    for attempt in range(200):
+        if kind in ('orthoF-aniso', 'orthoI-aniso'):
+            # three different axes 1 : r1 : r2 (a lattice with two equal axes is tetragonal: another family)
+            r1 = np.exp(rng.uniform(np.log(1.15), np.log(2.4)))
+            r2 = r1 * np.exp(rng.uniform(np.log(1.1), np.log(3.5)))
+            a, b, c = (np.array([1., r1, r2]) * np.exp(rng.uniform(np.log(0.6), np.log(1.6))))[rng.permutation(3)]
+            if kind == 'orthoF-aniso':
+                L = np.array([[0., b / 2, c / 2], [a / 2, 0., c / 2], [a / 2, b / 2, 0.]]).T
+            else:
+                L = np.array([[-a / 2, b / 2, c / 2], [a / 2, -b / 2, c / 2], [a / 2, b / 2, -c / 2]]).T
+        else:
+            mode = int(rng.choice([0, 0, 0, 1, 2]))
+            if mode == 0: L = np.eye(3) + 0.3 * rng.normal(size=(3, 3))
+            elif mode == 1: L = rng.normal(size=(3, 3))
+            else: L = np.diag(np.exp(rng.uniform(np.log(0.4), np.log(2.5), size=3))) @ (np.eye(3) + 0.3 * rng.normal(size=(3, 3)))
+        if abs(np.linalg.det(L)) >= 0.05 and np.linalg.cond(L) < 40: return L
+    return np.array([[1., 0.21, 0.17], [0., 0.93, 0.26], [0., 0., 1.08]])
+
+
+def sweeps_needed(kraw, BZG, maxsweeps=12):
+    """Replay of the documented folding on the raw mesh points (coverage counter only): number of sweeps over the
+    zone-face vectors, in the given order, in which a point is still folded (0 = the raw point is inside)."""
+    k = np.array(kraw, dtype=float)
+    Gs = [np.asarray(G, dtype=float) for G in BZG]
+    G2 = [float(G @ G) * (1 + 1e-12) for G in Gs]
+    nsw = np.zeros(len(k), dtype=int)
+    for sweep in range(maxsweeps):
+        moved = np.zeros(len(k), dtype=bool)
+        for G, g2 in zip(Gs, G2):
+            m = k @ G > g2
+            if m.any():
+                k[m] -= 2. * G
+                moved |= m
+        if not moved.any(): break
+        nsw[moved] += 1
+    return nsw
+
+
+def run_directed(case, mon, rng, crystal):
+    """Cheap clauses on many (anisotropic low-symmetry 3-D lattice, mesh) pairs."""
+    sample = None
+    big = 5
+    Gidx = np.array([m for m in itertools.product(range(-big, big + 1), repeat=3) if any(m)])
+    for kl in range(case['nlatt']):
+        kind = DIRECTED_KINDS[(kl + case['idx']) % len(DIRECTED_KINDS)]
+        L0 = aniso_lattice(rng, kind)
+        if rng.uniform() < 0.4: L0 = pg.random_rotation(rng, 3) @ L0
+        crys = None
+        with mon.guard('C22:construct'):
+            crys = crystal.Crystal(L0, [[np.zeros(3)]])
+        if crys is None: continue
+        L = np.array(crys.lattice, dtype=float)
+        B = 2 * np.pi * np.linalg.inv(L).T
+        Gv = Gidx @ B.T
+        G2 = np.einsum('ij,ij->i', Gv, Gv)
+        mon.count('directed_lattices')
+        BZG = None
+        try:
+            BZG = [np.array(G, dtype=float) for G in crys.BZG]
+            mon.seen('directed_zone_faces', len(BZG))
+        except Exception:
+            mon.count('directed_no_BZG_attribute')
+        lens = np.sort(np.linalg.norm(L, axis=0))
+        mon.note_max('directed_axis_ratio', float(lens[2] / lens[0]))
+        for km in range(case['nmesh']):
+            lo = 3 if km % 4 else 1
+            for t in range(100):
+                N = [int(rng.integers(lo, 9)) for _ in range(3)]
+                if 1 < int(np.prod(N)) <= case['maxpts']: break
+            else:
+                N = [2, 3, 4]
+            nk = int(np.prod(N))
+            mtags = ['directed-anisotropic', kind, 'anisotropic-mesh' if len(set(N)) > 1 else 'isotropic-mesh']
+            desc = {'kind': kind, 'lattice': L, 'basis': crys.basis, 'Nmesh': N, 'hashseed': case.get('hashseed')}
+            if sample is None: sample = desc
+            kpts = None
+            try:
+                with mon.guard('C22:fullkptmesh'), deadline(MESH_DEADLINE):
+                    kpts = crys.fullkptmesh(N)
+            except MeshTimeout:
+                mon.check(False, 'C22:fullkptmesh-terminates', lambda: 'no result within %d s %s' % (MESH_DEADLINE, desc), tags=mtags)
+                return sample
+            mon.check(True, 'C22:fullkptmesh-terminates')
+            if kpts is None:
+                mon.check(False, 'C22:fullkptmesh-returns-mesh', lambda: str(desc))
+                continue
+            kpts = np.asarray(kpts, dtype=float)
+            mon.count('directed_pairs')
+            mon.count('directed:' + kind)
+            mon.count('meshes_checked')
+            mon.count('dim3_meshes')
+            if len(set(N)) > 1: mon.count('mesh:anisotropic')
+            elif N[0] % 2 == 0: mon.count('mesh:even')
+            else: mon.count('mesh:odd')
+            mon.sig([kind, np.round(L, 3).tolist(), N])
+            if not mon.check(kpts.shape == (nk, 3), 'C22:full-mesh-count', lambda: 'shape %s for %s' % (kpts.shape, desc)):
+                continue
+            # 2 k.G > G.G needs |G| < 2 |k|: only those reciprocal vectors can be violated by (or touch) a point of this mesh
+            kmax2 = float(np.max(np.einsum('ij,ij->i', kpts, kpts)))
+            near = G2 <= 4 * kmax2 * (1 + 1e-6)
+            if near.any():
+                rel = (2 * kpts @ Gv[near].T - G2[near][None, :]) / G2[near][None, :]
+                worst = float(np.max(rel))
+                nout = int(np.sum(np.any(rel > 1e-9, axis=1)))
+                nbound = int(np.sum(np.any(np.abs(rel) <= 1e-9, axis=1)))
+            else:
+                worst, nout, nbound = -1., 0, 0
+            mon.check(worst <= 1e-9, 'C22:in-first-BZ', lambda: '%d of %d points outside, max (2k.G-G.G)/G.G = %.3e %s' % (
+                nout, nk, worst, desc), tags=mtags)
+            mon.count('boundary_points', nbound)
+            frac = kpts @ L / (2 * np.pi)
+            scaled = frac * np.array(N)[None, :]
+            rel = scaled - scaled[0][None, :]
+            onmesh = float(np.max(np.abs(rel - np.round(rel))))
+            idx = np.mod(np.round(rel).astype(int), np.array(N)[None, :])
+            cells = {tuple(r) for r in idx.tolist()}
+            mon.check(onmesh < 1e-9 and len(cells) == nk, 'C22:full-mesh-complete',
+                      lambda: 'off-mesh %.2e, %d distinct points of %d %s' % (onmesh, len(cells), nk, desc), tags=mtags)
+            mon.count('folded_points', int(np.sum(np.any(np.abs(frac) > 0.5 + 1e-9, axis=1))))
+            # coverage: how many sweeps over the zone planes does the raw mesh need?
+            if BZG is not None:
+                f = frac - np.round(frac)
+                f[f < -0.5 + 1e-9] += 1.
+                nsw = sweeps_needed(f @ B.T, BZG)
+                for thr in (2, 3, 4):
+                    c = int(np.sum(nsw >= thr))
+                    mon.count('points_needing_%d_sweeps' % thr, c)
+                    mon.count('pairs_needing_%d_sweeps' % thr, c > 0)
+                    if thr == 3 and c > 0: mon.count('pairs_needing_3_sweeps:' + kind)
+                mon.note_max('max_sweeps', int(nsw.max()))
+    return sample
+
+
 def run_case(case):
     from onsager import crystal
     mon = Mon()
     rng = gen.rng_for(case['seed'], case['idx'], 22)
+    if case.get('family') == 'bzfold':
+        sample = run_directed(case, mon, rng, crystal)
+        return mon.result(sample=sample)
     sample = None
     for kc in range(case['ncrys']):
         crys, kind, rotated = make_crystal(rng, crystal)
